@@ -63,6 +63,8 @@ MUTANTS = {
         ('memory_not_released', r'self\.memory_usage_bytes -= message\.len\(\);', ''),
         ('slice_end_wrong', r'let end = if slice_index == num_slices - 1 \{ message\.len\(\) \}', 'let end = if slice_index == num_slices { message.len() }'),
         ('sequence_reused', r'(slice,\n\s+\}\);\n\s+)\*packet_sequence \+= 1;', r'\1'),
+        ('slice_id_constant', r'message_id: self\.sliced_message_id,', 'message_id: 0,'),
+        ('slice_id_not_advanced', r'self\.sliced_message_id \+= 1;', ''),
     ],
 }
 
